@@ -361,14 +361,51 @@ def run_atomic(outer, inner, at, clock):
         if line != "" and not rx.match(line) and state["bad"] is None:
             state["bad"] = "after write #%d the terminal line is %r: neither empty nor one frame" % (len(s.writes) - n0, line)
 
+    class _Excluded(BaseException):
+        """the other party's call would have to wait for a lock the interrupted call holds: no such interleaving"""
+
+    class _Lock(object):
+        # a lock of the component, as seen by a re-entry simulated in ONE thread: the inner call stands for another
+        # thread, so a held lock means "the other party waits here" -- the re-entry is excluded (and not a deadlock)
+        def __init__(self):
+            self.held = 0
+
+        def acquire(self, blocking=True, timeout=-1):
+            if self.held and state.get("inside"):
+                raise _Excluded()
+            self.held += 1
+            return True
+
+        def release(self):
+            self.held -= 1
+
+        def locked(self):
+            return self.held > 0
+
+        __enter__ = acquire
+
+        def __exit__(self, *a):
+            self.release()
+
+    # locks created by the constructor are real ones: swap every lock-like attribute of the indicator for the stand-in
+    for name, val in list(vars(ind).items()):
+        if hasattr(val, "acquire") and hasattr(val, "release"):
+            setattr(ind, name, _Lock())
+
     def hook(s, index):
         check(s)
         if not state["fired"] and index - n0 == at:
             state["fired"] = True
-            if inner == "msg":
-                ind.set_message("Other")
-            else:
-                ind.advance()
+            state["inside"] = True
+            try:
+                if inner == "msg":
+                    ind.set_message("Other")
+                else:
+                    ind.advance()
+            except _Excluded:
+                pass
+            finally:
+                state["inside"] = False
 
     stream.hook = hook
     try:
@@ -397,6 +434,8 @@ class Sched(object):
         self.done = {0: False}
         self.wake = {}
         self.joining = {}
+        self.lockwait = {}         # thread -> the (shim) lock it is waiting for
+        self.timed_join = {}       # thread -> (thread joined with a timeout, virtual deadline in ms)
         self.ms = 0
         self.choices = list(choices)
         self.trace = []            # (options, chosen, preemptive)
@@ -413,6 +452,12 @@ class Sched(object):
             return True
         if t in self.joining and not self.done.get(self.joining[t], True):
             return True
+        tj = self.timed_join.get(t)
+        if tj is not None and not self.done.get(tj[0], True) and tj[1] > self.ms:
+            return True
+        lk = self.lockwait.get(t)
+        if lk is not None and lk.owner is not None and (lk.owner != t or not lk.reentrant):
+            return True
         return False
 
     def _pick(self, me):
@@ -426,6 +471,7 @@ class Sched(object):
             if runnable:
                 break
             sleepers = [self.wake[t] for t in self.done if not self.done[t] and t in self.wake and self.wake[t] > self.ms]
+            sleepers += [d for t, (_j, d) in self.timed_join.items() if not self.done.get(t) and d > self.ms]
             if not sleepers:
                 self.hung = True
                 raise _Hang("deadlock: no runnable thread")
@@ -530,8 +576,16 @@ def _sched_shims(sched, ids):
             sched.point(me())
 
         def join(self, timeout=None):
-            sched.joining[me()] = self.tid
-            sched.point(me())
+            if timeout is None:
+                sched.joining[me()] = self.tid
+                sched.point(me())
+            else:
+                # a join that gives up after `timeout` seconds of (virtual) time
+                sched.timed_join[me()] = (self.tid, sched.ms + int(round(max(0.0, timeout) * 1000)))
+                try:
+                    sched.point(me())
+                finally:
+                    sched.timed_join.pop(me(), None)
             if sched.done.get(self.tid):
                 self.joined = True
 
@@ -546,8 +600,50 @@ def _sched_shims(sched, ids):
     ThreadingShim.Event = Event
     ThreadingShim.Thread = Thread
     ThreadingShim.current_thread = staticmethod(_real_threading.current_thread)
-    ThreadingShim.Lock = _real_threading.Lock
-    ThreadingShim.RLock = _real_threading.RLock
+    class Lock(object):
+        """a lock the scheduler knows about: a thread that waits for it is not runnable, acquiring is a scheduling
+        point, and when every live thread waits (for a lock, a join) the run is reported as a deadlock"""
+        reentrant = False
+
+        def __init__(self):
+            self.owner = None
+            self.count = 0
+
+        def acquire(self, blocking=True, timeout=-1):
+            t = me()
+            sched.point(t)
+            while self.owner is not None and not (self.reentrant and self.owner == t):
+                if not blocking:
+                    return False
+                sched.lockwait[t] = self
+                try:
+                    sched.point(t)
+                finally:
+                    sched.lockwait.pop(t, None)
+            self.owner = t
+            self.count += 1
+            return True
+
+        def release(self):
+            if self.owner is None:
+                raise RuntimeError("release unlocked lock")
+            self.count -= 1
+            if self.count == 0:
+                self.owner = None
+
+        def locked(self):
+            return self.owner is not None
+
+        __enter__ = acquire
+
+        def __exit__(self, *a):
+            self.release()
+
+    class RLock(Lock):
+        reentrant = True
+
+    ThreadingShim.Lock = Lock
+    ThreadingShim.RLock = RLock
 
     class TimeShim(object):
         @staticmethod
@@ -561,12 +657,18 @@ def _sched_shims(sched, ids):
     return ThreadingShim, TimeShim, Thread
 
 
-BODIES = ["return", "message-at-once", "sleep200-message", "sleep100-Exception", "sleep100-KeyboardInterrupt", "sleep100-message-sleep100"]
+BODIES = ["return", "message-at-once", "sleep200-message", "sleep100-Exception", "sleep100-KeyboardInterrupt", "sleep100-message-sleep100",
+          "return@10", "sleep200-message@10", "sleep100-Exception@1000"]
 BODIES_THOROUGH = BODIES + ["sleep100-message-message", "sleep100-message-sleep100-message-sleep100", "sleep300-message-Exception"]
 
 
 def run_schedule(body, choices):
-    """one run of auto() under the scheduler; returns (Problem or None, trace)"""
+    """one run of auto() under the scheduler; returns (Problem or None, trace)
+    (a body name may carry a redraw interval: "<body>@<ms>", default 100 ms)"""
+    interval = 100
+    if "@" in body:
+        body, _, iv = body.partition("@")
+        interval = int(iv)
     import clikit.ui.components.progress_indicator as pim
     from clikit.ui.components import ProgressIndicator
 
@@ -576,7 +678,7 @@ def run_schedule(body, choices):
     saved = (pim.threading, pim.time)
     pim.threading, pim.time = tshim, timeshim
     out, stream = _output(True)
-    ind = ProgressIndicator(out, None, 100)
+    ind = ProgressIndicator(out, None, interval)
     msgs = ["Starting", "Halfway", "<info>Done</info>"]
     rx = frame_regex(ProgressIndicator.NORMAL, ["-", "\\", "|", "/"], msgs)
     state = {"bad": None, "term": Term(1000)}
